@@ -56,11 +56,12 @@ def build_nodes(V, cfg, SymDist, tag=""):
         nodes = [BaseNode(name=f"n{i}", rate=10 + i, delay=nd[i], delay_dist=SymDist(qv=V.grid(f"nq{i}", lo=0, hi=1), tag=f"n{i}")) for i in range(n)]
         for (i, j), sk in zip(edges, skips):
             nodes[j].connect(nodes[i], blocking=cfg.get("blocking", False), delay=cd[(i, j)], delay_dist=SymDist(qv=V.grid(f"cq{i}_{j}", lo=0, hi=1), tag=f"c{i}{j}"),
-                             window=1 + (i + j) % 2, skip=sk)
+                             window=1 + (i + j) % 2, skip=sk, name=(f"in{i}" if cfg.get("shadow") else None))
         return nodes, nd, cd
     nodes = [BaseNode(name=f"n{i}", rate=10 + i, delay_dist=SymDist(qv=nd[i], tag=f"n{i}")) for i in range(n)]
     for (i, j), sk in zip(edges, skips):
-        nodes[j].connect(nodes[i], blocking=cfg.get("blocking", False), delay_dist=SymDist(qv=cd[(i, j)], tag=f"c{i}{j}"), window=1 + (i + j) % 2, skip=sk)
+        nodes[j].connect(nodes[i], blocking=cfg.get("blocking", False), delay_dist=SymDist(qv=cd[(i, j)], tag=f"c{i}{j}"), window=1 + (i + j) % 2, skip=sk,
+                         name=(f"in{i}" if cfg.get("shadow") else None))
     return nodes, nd, cd
 
 
@@ -205,7 +206,8 @@ def scen_info_roundtrip(cfg):
             i1, i2 = nd_.info, r.info
             ok += [i1.name == i2.name, i1.rate == i2.rate, i1.advance == i2.advance, i1.scheduling == i2.scheduling, i1.delay_dist is i2.delay_dist,
                    i1.cls == i2.cls, i1.color == i2.color, i1.order == i2.order, _close(V, i1.delay, i2.delay), _close(V, i1.phase, i2.phase), _close(V, nd_.phase, r.phase),
-                   sorted(i1.inputs.keys()) == sorted(i2.inputs.keys()), sorted(nd_.outputs.keys()) == sorted(r.outputs.keys())]
+                   sorted(i1.inputs.keys()) == sorted(i2.inputs.keys()), sorted(nd_.outputs.keys()) == sorted(r.outputs.keys()),
+                   sorted(nd_.inputs.keys()) == sorted(r.inputs.keys())]  # the names under which the step function finds its inputs
             for k in i1.inputs:
                 a, b = i1.inputs[k], i2.inputs[k]
                 ok += [a.rate == b.rate, a.window == b.window, a.blocking == b.blocking, a.skip == b.skip, a.jitter == b.jitter, a.delay_dist is b.delay_dist,
@@ -299,7 +301,8 @@ def configs(tier):
     out.append(dict(scen="set_dist"))
     for es in (((0, 1),), ((0, 1), (1, 2), (0, 2))):
         for explicit in (False, True):
-            out.append(dict(scen="info", n=max(max(e) for e in es) + 1, edges=list(es), skips=[False] * (len(es) - 1) + [True] if len(es) > 1 else [False], blocking=len(es) > 1, explicit=explicit))
+            for shadow in (False, True):  # connections registered under a custom input name
+                out.append(dict(scen="info", n=max(max(e) for e in es) + 1, edges=list(es), skips=[False] * (len(es) - 1) + [True] if len(es) > 1 else [False], blocking=len(es) > 1, explicit=explicit, shadow=shadow))
     out += [dict(scen="default", what="node"), dict(scen="default", what="connection"), dict(scen="cycle", skip=False), dict(scen="cycle", skip=True)]
     return out
 
